@@ -512,7 +512,10 @@ func init() {
 	// C12: Decode functions with non-zero initial targets
 	suites["c12"] = func(e *emitter, r *rng, thorough bool) {
 		inputs := []string{"null", " null", "nul", "nulll", "null5", "true", "false", " false ", "0", "-1", "12", "1.5", "1e3", "4294967296", "-2147483649",
-			"18446744073709551616", "9223372036854775808", "-9223372036854775809", `"abc"`, `"a\nb"`, `"\ud800"`, `"unterminated`, `"bad\x"`, "", " ", "x", "[", "{}", "tru", "nullx", "\tnull"}
+			"18446744073709551616", "9223372036854775808", "-9223372036854775809", `"abc"`, `"a\nb"`, `"\ud800"`, `"unterminated`, `"bad\x"`, "", " ", "x", "[", "{}", "tru", "nullx", "\tnull",
+			// values on which a Decode function that does not simply run its reader would differ from it
+			"-0", "\t-0 ", "-0,", "-0]", "-0.0", "0.0", "-0e5", "1.0", "9007199254740993", "123456789012345678", "0.1", "1e-400", "-1e-400", "1e400",
+			"2147483647", "2147483648", "-2147483648", "4294967295", "9223372036854775807", "-9223372036854775808", "18446744073709551615", "007", "1 2", "12abc", " 7 ", "truex", "false,"}
 		type ty struct {
 			name  string
 			inits []string
